@@ -207,4 +207,8 @@ pub struct ReplayFile {
     pub detail: String,
     pub cargo_features: String,
     pub worlds: Vec<World>,
+    /// recorded when the violation was confirmed: per world, the schedule decisions taken (thread, count)
+    /// and the event digest; a replay that takes other decisions or reaches another digest says so
+    #[serde(default)]
+    pub recorded: Vec<(Vec<(u8, u32)>, u64)>,
 }
